@@ -183,8 +183,13 @@ package PVM
 //@ func decodeOperands
 //@   props C03
 //@   requires wf: instr != nil && int(instr.PC) + 32 <= len(idata) && instr.SkipLen <= 24 && len(idata) < 4294967296
+//@   requires fresh: instr.Imm[0] == 0 && instr.Imm[1] == 0
+//@   opt slow=4
 //@   ensures frame: frame_only(*instr)
+//@   ensures fields: regs_ok(instr.Opcode, instr) && instr.Opcode == old(instr.Opcode) && instr.PC == old(instr.PC) && instr.SkipLen == old(instr.SkipLen)
+//@   ensures imm: spec.pvm_is_ecalli(instr.Opcode) ==> uint64(int64(int32(instr.Imm[0]))) == instr.Imm[0]
 //@   assigns *instr
+//@   spec pvm.smt2
 
 // skip (A.3): distance to the next instruction start, the bitmask being followed by an infinite run of ones
 //@ pred inst_start_or_end(bitmask, a) = a >= len(bitmask) || bitmask[a] != 0
@@ -207,3 +212,24 @@ package PVM
 //@     invariant lens: len(p.InstrIdxAt) == len(idata) && len(p.BlockAt) == len(idata)
 //@   loop pc#1
 //@     invariant lens: len(p.InstrIdxAt) == len(idata) && len(p.BlockAt) == len(idata)
+
+//@ func MakeBitMasks
+//@   props C03
+//@   requires size: len(instruction) < 4294967296
+//@   ensures shape: result1 == ExitContinue ==> len(result0) == len(instruction)
+//@   ensures exits: result1 == ExitContinue || result1 == ExitPanic
+//@   loop rangeint.iter#0
+//@     invariant range: 0 <= rangeint_iter && rangeint_iter < len(instruction) && 0 <= prev && prev <= rangeint_iter && len(bitmask) == len(instruction)
+
+//@ func decodeUintFixedLength
+//@   props C03
+
+//@ func ReadBytes
+//@   props C03
+
+//@ func DeBlobProgramCode
+//@   props C03
+//@   requires size: len(data) < 4294967000
+//@   ensures wf: result1 == ExitContinue ==> wf_code_v(result0) && wf_jt_v(result0)
+//@ pred wf_code_v(p) = len(p.Bitmasks) == len(p.InstructionData) && len(p.Bitmasks) < 4294967296
+//@ pred wf_jt_v(p) = p.JumpTable.Length <= 8 && p.JumpTable.Size < 2147483648 && uint64(p.JumpTable.Size) * uint64(p.JumpTable.Length) < 4294967296 && uint64(len(p.JumpTable.Data)) >= uint64(p.JumpTable.Size) * uint64(p.JumpTable.Length)
